@@ -772,13 +772,17 @@ pub fn flag_family() -> Vec<Seq> {
         |b| Node::new(Kind::Rep { body: b, bounds: Bounds::None }),
     ];
     let mut out = vec![];
+    // the leading literal is cased (`a`: its case flag decides its language) or uncased (`.`: a
+    // case-insensitive `.` is still invariant text, so what follows it is reported as invariant
+    // while the encoder is in the case-insensitive state)
+    for lead in ["a", "."] {
     for f1 in &flags {
         for f2 in &flags {
             for f3 in &flags {
                 for g in &groups {
                     // f1 a f2 G(f3 b)
                     let mut s = f(*f1);
-                    s.push(l("a"));
+                    s.push(l(lead));
                     s.extend(f(*f2));
                     let mut body = f(*f3);
                     body.push(l("b"));
@@ -786,7 +790,7 @@ pub fn flag_family() -> Vec<Seq> {
                     out.push(s);
                     // G(f1 a) f2 b   and   G(f1 a) f2 [b]
                     let mut inner = f(*f1);
-                    inner.push(l("a"));
+                    inner.push(l(lead));
                     let mut s = vec![g(inner.clone())];
                     s.extend(f(*f2));
                     s.push(l("b"));
@@ -802,12 +806,12 @@ pub fn flag_family() -> Vec<Seq> {
                     mid.push(l("b"));
                     mid.push(Node::new(Kind::Alt(vec![innermost])));
                     let mut s = f(*f1);
-                    s.push(l("a"));
+                    s.push(l(lead));
                     s.push(g(mid));
                     out.push(s);
                     // f1 a G(b) f3 c : flag state after a group
                     let mut s = f(*f1);
-                    s.push(l("a"));
+                    s.push(l(lead));
                     let mut body = f(*f2);
                     body.push(l("b"));
                     s.push(g(body));
@@ -817,6 +821,7 @@ pub fn flag_family() -> Vec<Seq> {
                 }
             }
         }
+    }
     }
     let mut out: Vec<Seq> = out.into_iter().map(|s| crate::astops::normalize(&s)).filter(|s| is_canonical(s)).collect();
     out.sort();
